@@ -79,6 +79,26 @@ Theorem C05_reads_total :
 Proof. exact C05_reads_total_proof. Qed.
 Print Assumptions C05_reads_total.
 
+(* The tiers of BatchGetWithTier.  Buffer tier of a pipelined transaction [own]: the call returns
+   (total, within E*(|keys|+1)+|keys|+1 rounds for a schedule with at most E region errors) exactly the
+   pairs (k, flushed value) — the empty value for a flushed delete — of the requested keys on which
+   [own] holds a lock, for every region-error / re-split schedule; it does not depend on the committed
+   data of the key (the snapshot tier is never consulted for a flushed key); and the snapshot tier of
+   the same reader (own start ts in the ignored set, SetPipelined) never blocks on an own lock: it
+   reads the committed data below it.  Together with C05_reads_total: every tier returns and returns
+   its truth. *)
+Theorem C05_tiers_agree :
+  forall (w : world) (own : N),
+    (forall fuel ev L0 keys E, bounded_errs ev 0 E ->
+        (E * (length keys + 1) + length keys < fuel)%nat ->
+        exists res, buffer_batch_get fuel ev L0 w own keys = Some res /\
+                    forall k v, In (k, v) res <-> In k keys /\ buf_val own (k_get (w_keys w) k) = Some v) /\
+    (forall ws ws' ol, buf_val own (mkKs ws ol) = buf_val own (mkKs ws' ol)) /\
+    (forall ts rs s l, ks_lock s = Some l -> l_start l = own ->
+        store_get s ts (own :: rs) = SVal (vis (ks_ws s) ts)).
+Proof. exact C05_tiers_agree_proof. Qed.
+Print Assumptions C05_tiers_agree.
+
 (* resolveLocks' decision: Ignore only if rolled back, committed above the caller's ts, or min
    commit ts pushed; Access only if committed at or below ts; a finished transaction is never
    waited for; the store ignores locks with start > ts and pessimistic / lock-only locks. *)
@@ -189,4 +209,11 @@ Example ex_forward_move :
                match ops with [] => [] | o :: r => let '(a, st') := p_step 10 st o in a :: run st' r end in
   run (ex_world, mkRS 50 None []) [PGet [102]; PFinish 48; PSetTS 100; PGet [102]; PSetTS 50; PGet [102]]
   = [Some (Some [8]); None; None; Some (Some [9]); None; Some (Some [8])].
+Proof. vm_compute. reflexivity. Qed.
+
+(* transaction 48 (pushable, own) holds a Put lock on f; 70 holds one on e; the buffer tier of 48 returns
+   only f with the flushed value, whatever is committed below; a region error re-splits *)
+Example ex_buffer_tier :
+  buffer_batch_get 10 (fun i => if Nat.eqb i 0 then EvRegionErr [[101]] else EvOk) [] ex_world 48 [[97]; [101]; [102]; [103]]
+  = Some [([102], [9])].
 Proof. vm_compute. reflexivity. Qed.
